@@ -44,6 +44,8 @@ def _calls(fn, text):
 
 
 def check(ctx, rep):
+    from ..sigils import check as _sigils
+    _sigils(ctx, rep, ['pcbasic/basic/interpreter.py:Interpreter.read_'], 1)
     # ---- one pointer, closed set of writers -------------------------------------------------------------
     writers = set()
     n = 0
@@ -115,6 +117,17 @@ def check(ctx, rep):
            len(fr) == 1 and [(k.arg, norm(k.value)) for k in fr[0].keywords] == [('allow_nonnum', 'False')] and fl.knows(fr[0], 'name[-1:] == values.STR', False)
            and any(isinstance(a, ast.Assign) and norm(a.targets[0]) == 'data_error' and norm(a.value) == 'True'
                    and fl.knows(a, CODE + ".skip_blank() not in tk.END_STATEMENT + (b',',)", True) for a in own_nodes(rd)), '', ctx.where(rd))
+    # writer side: the tokeniser stores a DATA statement verbatim up to the `:` that ends it -- but a `:` (or `,`) inside a quoted
+    # item belongs to the item: at a quote the whole string literal is passed through and the copy goes on
+    td = ctx.fn('pcbasic/basic/converter/tokeniser.py:Tokeniser._tokenise_data')
+    loops = [w for w in own_nodes(td) if isinstance(w, ast.While)]
+    stops = [ctx.fold(c.args[0]) for c in own_nodes(td) if isinstance(c, ast.Call) and norm(c.func) == 'ins.read_to' and c.args]
+    lit = [i for i in own_nodes(td) if isinstance(i, ast.If) and norm(i.test) in ("ins.peek() == b'\"'", "b'\"' == ins.peek()")
+           and any(isinstance(c, ast.Call) and norm(c) == 'outs.write(ins.read_string())' for c in own_nodes(i.body[0]) ) and any(isinstance(b, ast.Break) for b in i.orelse)]
+    ok = len(loops) == 1 and len(stops) == 1 and isinstance(stops[0], tuple) and {b':', b'"', b'', b'\r'} <= set(stops[0]) and len(lit) == 1 \
+        and any(x is lit[0] for x in ast.walk(loops[0]))
+    rep.ob('data.tokeniser-keeps-literals-whole', '_tokenise_data copies up to `:` or a quote, passes a string literal whole, and goes on', ok,
+           'a `:` inside a quoted DATA item ends the statement at tokenise time: READ returns a cut string and the rest is executed as a statement (stops %r)' % (stops,), ctx.where(td))
     # the forward search for DATA skips string literals and remarks, but only to the end of their line: every
     # scanning mode the search can enter is left again at the end-of-line byte
     st_ = ctx.fn('pcbasic/basic/base/codestream.py:TokenisedStream.skip_to')
@@ -125,8 +138,8 @@ def check(ctx, rep):
     rep.ob('scan.modes', 'skip_to ignores bytes while inside a string literal or a remark', sorted(modes) == ['literal', 'rem'], repr(modes), ctx.where(st_))
     for m_ in modes:
         resets = [a for a in own_nodes(st_) if isinstance(a, ast.Assign) and norm(a.targets[0]) == m_ and norm(a.value) == 'False'
-                  and fls.knows(a, "c == b'\\x00'", True)]
-        rep.ob('scan.mode-ends-with-the-line', 'skip_to leaves `%s` mode at the end of the line' % m_, len(resets) >= 1,
+                  and fls.knows(a, "c == b'\\x00'", True) and a.lineno < guard[0].lineno]
+        rep.ob('scan.mode-ends-with-the-line', 'skip_to leaves `%s` mode at the end of the line, before the bytes of the mode are skipped' % m_, len(resets) >= 1,
                'once entered, the mode lasts to the end of the program: DATA statements after a remark (or an unclosed quote) are never found', ctx.where(st_))
     # the search looks at the *keyword* of each statement: blanks after the separator are skipped first
     # (`10 PRINT 1: DATA 2`), and the position is put back to the start of the keyword
@@ -192,6 +205,12 @@ def variants(ctx):
            rd(lambda fn: mu.replace_expr(fn, mu.text_is('error.BASICError(error.OUT_OF_DATA)'), 'error.BASICError(error.STX)')), expect='read.out-of-data'),
         Va('comma-not-accepted', 'break', INTERP,
            rd(lambda fn: mu.replace_expr(fn, mu.text_is("(tk.DATA, b',')"), '(tk.DATA,)')), expect='read.out-of-data'),
+        Va('literal-mode-reset-only-after-the-skip', 'break', 'pcbasic/basic/base/codestream.py',
+           lambda tree: _drop_nth(mu.find_def(tree, 'TokenisedStream.skip_to'), 'literal = False', 1), expect='scan.mode-ends'),
+        Va('data-tokenised-verbatim-to-first-colon', 'break', 'pcbasic/basic/converter/tokeniser.py',
+           lambda tree: _data_verbatim(mu.find_def(tree, 'Tokeniser._tokenise_data')), expect='data.tokeniser-keeps-literals-whole'),
+        Va('read-looks-at-uncompleted-name', 'break', INTERP,
+           rd(lambda fn: mu.remove_stmt(fn, mu.text_is('name = self._memory.complete_name(name)'))), expect='names.sigil-read-from-completed-name'),
         Va('no-search-for-next-data', 'break', INTERP, rd(lambda fn: mu.remove_stmt(fn, lambda st: isinstance(st, ast.If) and 'skip_to_token' in norm(st) and 'END_STATEMENT' in norm(st.test))), expect='read.finds-next-data'),
         Va('bad-number-advances-pointer', 'break', INTERP, rd(_advance_always), expect='read.type-error'),
         Va('bad-number-error-at-read-line', 'break', INTERP,
@@ -239,3 +258,27 @@ def _drop_second_rem(fn):
     # the first `rem = False` (initialisation) was removed by the caller; put it back and remove the reset instead
     fn.body.insert(1, ast.parse('rem = False').body[0])
     return mu.remove_stmt(fn, lambda st: isinstance(st, ast.Assign) and norm(st) == 'rem = False' and not (st in fn.body))
+
+
+def _drop_nth(fn, text, n):
+    """Remove the n-th (0-based, in source order) statement with the given text."""
+    hits = []
+    for x in ast.walk(fn):
+        for fld in ('body', 'orelse', 'finalbody'):
+            b = getattr(x, fld, None)
+            if isinstance(b, list):
+                for st in b:
+                    if isinstance(st, ast.stmt) and norm(st) == text:
+                        hits.append((st.lineno, b, st))
+    hits.sort(key=lambda t: t[0])
+    if len(hits) <= n:
+        return False
+    hits[n][1].remove(hits[n][2])
+    return True
+
+
+
+def _data_verbatim(fn):
+    fn.body = [st for st in fn.body if isinstance(st, ast.Expr) and isinstance(st.value, ast.Constant)] + \
+        ast.parse("outs.write(ins.read_to((b'', b'\\r', b'\\0', b':')))").body
+    return True
